@@ -283,8 +283,8 @@ pub fn sweep_depth1(ctx: &Ctx, oracle: &dyn Oracle, starts: &[Start]) -> BfsResu
                 st.bump("replay_failed");
                 return (st, 0, 0);
             };
-            let mut keys: HashSet<String> = HashSet::new();
-            keys.insert(state_key(&w, &f));
+            let mut keys: HashSet<u128> = HashSet::new();
+            keys.insert(key128(&state_key(&w, &f)));
             let mut transitions = 0u64;
             for op in oracle.ops(&w, &f, 0) {
                 let (v, post, post_forest) = run_step(oracle, &w, &f, &op, &mut st);
@@ -297,7 +297,7 @@ pub fn sweep_depth1(ctx: &Ctx, oracle: &dyn Oracle, starts: &[Start]) -> BfsResu
                     }
                 } else if v.expand {
                     if let Ok(pf) = &post_forest {
-                        let key = state_key(&post, pf);
+                        let key = key128(&state_key(&post, pf));
                         st.outcome(&key);
                         keys.insert(key);
                     }
